@@ -54,7 +54,10 @@ Theorem bridge_roundtrip : forall g, plain g = true -> simplify (simple_object g
 Proof.
   induction g using gov_ind2; intros Hp; try (cbn [plain] in Hp; discriminate); try reflexivity.
   - destruct b; [reflexivity | discriminate].
-  - cbn [plain] in Hp. cbn [simple_object norm_gov]. destruct k; cbn [simplify]; rewrite ?wrap64_id by assumption; reflexivity.
+  - cbn [plain] in Hp. cbn [simple_object norm_gov]. unfold int_obj. change (fits64 z) with (in_int64 z). rewrite Hp.
+    destruct k; cbn [simplify]; rewrite ?wrap64_id by assumption; reflexivity.
+  - cbn [plain] in Hp. cbn [simple_object norm_gov]. destruct (int_of_bytes r) as [z|]; [|discriminate].
+    unfold int_obj. change (fits64 z) with (in_int64 z). rewrite Hp. reflexivity.
   - rewrite plain_slice in Hp. rename Hp into Hall. cbn [simple_object simplify norm_gov]. f_equal. rewrite map_map.
     induction l as [|x l IH]; [reflexivity|]. inversion H; subst. cbn [forallb] in Hall. apply andb_true_iff in Hall. destruct Hall.
     cbn [map]. f_equal; auto.
@@ -69,10 +72,16 @@ Proof. reflexivity. Qed.
 Theorem bridge_map_refuted :
   simplify (simple_object (GMap [(Bs "a", GInt KInt64 1)])) = GSlice [GSlice [GStr (Bs "a"); GInt KInt64 1]].
 Proof. reflexivity. Qed.
-Theorem bridge_uint64_refuted : simplify (simple_object (GInt KUint64 9223372036854775808)) = GInt KInt64 (-9223372036854775808).
-Proof. reflexivity. Qed.
-Theorem bridge_number_refuted : simplify (simple_object (GNum (Bs "12345678901234567890"))) = GNil.
-Proof. reflexivity. Qed.
+(* an integer beyond int64 (a uint64, a json.Number) is a bignum, and Simplify of a bignum is its decimal text *)
+Theorem bridge_bignum_refuted :
+  simple_object (GInt KUint64 9223372036854775808) = LBig 9223372036854775808 /\
+  simplify (simple_object (GInt KUint64 9223372036854775808)) = GStr (Bs "9223372036854775808") /\
+  simplify (simple_object (GNum (Bs "12345678901234567890"))) = GStr (Bs "12345678901234567890").
+Proof. repeat split; reflexivity. Qed.
+Example bridge_number_example :
+  plain (GNum (Bs "-9223372036854775808")) = true /\
+  simplify (simple_object (GNum (Bs "-9223372036854775808"))) = GInt KInt64 (-9223372036854775808).
+Proof. split; reflexivity. Qed.
 
 (* ---------------------------------------------------------------------------------------------- *)
 (* bag -> native -> bag *)
@@ -103,12 +112,17 @@ Proof. intros. reflexivity. Qed.
 
 Definition pair_shape (o : lobj) : bool := match o with LList [_; LTail _] => true | _ => false end.
 Lemma so_not_tail : forall g, match simple_object g with LTail _ => False | _ => True end.
-Proof. destruct g; cbn; auto; try (destruct b; exact I); try (destruct k; exact I). Qed.
+Proof.
+  destruct g; cbn [simple_object]; auto; try (destruct b; exact I).
+  - destruct k; unfold int_obj; try destruct (fits64 z); exact I.
+  - destruct (int_of_bytes raw); [unfold int_obj; destruct (fits64 z)|]; exact I.
+Qed.
 Lemma so_not_pair : forall g, pair_shape (simple_object g) = false.
 Proof.
   destruct g; try reflexivity.
   - destruct b; reflexivity.
-  - destruct k; reflexivity.
+  - destruct k; cbn [simple_object]; unfold int_obj; try destruct (fits64 z); reflexivity.
+  - cbn [simple_object]. destruct (int_of_bytes raw); [unfold int_obj; destruct (fits64 z)|]; reflexivity.
   - cbn [simple_object]. destruct l as [|a [|b [|c l]]]; cbn [map pair_shape]; try reflexivity.
     + pose proof (so_not_tail b) as H. destruct (simple_object b); auto. destruct H.
     + destruct (simple_object b); reflexivity.
@@ -125,6 +139,9 @@ Proof.
   unfold to_native. induction v using jv_ind2; intros Hok; try (cbn [native_ok] in Hok; discriminate); try reflexivity.
   - destruct b; [reflexivity | discriminate].
   - cbn [native_ok] in Hok. cbn [jv_gov simple_object]. rewrite wrap64_id by exact Hok. reflexivity.
+  - (* json.Number beyond int64 <-> bignum *)
+    cbn [native_ok] in Hok. apply negb_true_iff in Hok. cbn [jv_gov simple_object]. rewrite print_int_value.
+    unfold int_obj. rewrite Hok. cbn [object_to_bag]. rewrite Hok. reflexivity.
   - (* array *)
     destruct l as [|x l']; [discriminate|].
     rewrite native_ok_arr in Hok. rename Hok into Hall. cbn [jv_gov simple_object]. rewrite map_map. cbn [map]. rewrite otb_cons.
@@ -135,7 +152,7 @@ Proof.
       revert H Hall. generalize (x :: l'). induction l as [|y l IHl]; intros HF Hall; [reflexivity|].
       inversion HF; subst. cbn [forallb] in Hall. apply andb_true_iff in Hall. destruct Hall as [Hy Hl].
       cbn [map otb_list]. rewrite (H1 Hy). fold otb_list. rewrite (IHl H2 Hl). reflexivity. }
-    destruct (simple_object (jv_gov x)) as [| | | | | | | |[|a [|b [|c t]]]|] eqn:E; try (rewrite Hlist; reflexivity).
+    destruct (simple_object (jv_gov x)) as [| | | | | | | | | |[|a [|b [|c t]]]|] eqn:E; try (rewrite Hlist; reflexivity).
     all: destruct b; try (rewrite Hlist; reflexivity).
     all: cbn in Hnp; discriminate Hnp.
   - (* object *)
@@ -171,5 +188,10 @@ Proof. reflexivity. Qed.
 Theorem native_empty_refuted :
   object_to_bag (to_native (JArr [JArr []; JObj []])) = Some (JArr [JNull; JNull]) /\ object_to_bag (to_native (JObj [])) = Some JNull.
 Proof. split; reflexivity. Qed.
-Theorem native_big_refuted : object_to_bag (to_native (JArr [JBig 12345678901234567890])) = Some (JArr [JNull]).
+(* a json.Number that fits an int64 (what the parser makes of 9223372036854775800..807) comes back as an int64:
+   the same number, but bag-compare (ojg's alt.Compare) tells them apart *)
+Theorem native_edge_number_refuted :
+  object_to_bag (to_native (JArr [JBig 9223372036854775807])) = Some (JArr [JInt 9223372036854775807]).
+Proof. reflexivity. Qed.
+Example native_big_example : native_ok (JArr [JBig 12345678901234567890; JBig (-9223372036854775809)]) = true.
 Proof. reflexivity. Qed.
